@@ -89,9 +89,13 @@ def run(ctx):
         ctx.sample({'query': c['q'], 'A': c['A'], 'B': c['B'], 'model': e, 'implementation': {k2: g_.get(k2) for k2 in ('events', 'pulls', 'error')} if isinstance(g_, dict) else g_})
     # rbql-js/rbql.js is an anchor of this property too: the JavaScript leg runs language-neutral queries of this shape through rbql-js
     importlib.import_module('props.c19').js_leg(ctx, THEOREM, 'join', 600 if ctx.tier == 'quick' else 60000)
+    # the two sides of an ON condition: resolve_join_variables of both ports against JoinVars.v (the swap theorem's model)
+    importlib.import_module('props.joinvars').run(ctx, THEOREM + ' ; C08_join_sides_swap (JoinVars.v)')
 
 
 def replay(ctx, case):
+    if case.get('part') == 'joinvars':
+        return importlib.import_module('props.joinvars').replay(ctx, case, THEOREM)
     if case.get('impl') == 'js':
         return importlib.import_module('props.c19').replay(ctx, case)
     ec.replay(ctx, case, THEOREM)
